@@ -84,6 +84,7 @@ static void c03_cut(World *w, Buf *b, int pos, int variant) {
     if (rr) die("C03: cannot resume from own snapshot: %u", rr);
     snap_free(&s);
 }
+#include "scen_c03_admin.h"
 static void scen_c03(int histories, int maxops, int cut_pct) {
     g_gen_host_rng_ok = 1;
     Buf b = {0}; World w; memset(&w, 0, sizeof w);
@@ -114,6 +115,8 @@ static void scen_c03(int histories, int maxops, int cut_pct) {
             if (chance(admin ? 70 : cut_pct)) c03_cut(&w, &b, i, admin && chance(70) ? 0 : rnd(3));
         }
         c03_cut(&w, &b, n, 0);
+        /* the administrative state under its own model (a fresh TPM: the model starts from the manufactured state) */
+        if (h % 2 == 1) { tpm2_fresh(h % 3 == 0 ? NULL : (h % 3 == 1 ? PROFILE_DEFAULT_V1 : PROFILE_CUSTOM)); tpm2_startup(&b, 0); w_reset(&w); c03_admin(&b, 30 + rnd(40)); continue; }
         /* drill: a counter is incremented and then deleted; its high-water mark must survive the power cut that follows */
         if (h % 2 == 0) {
             cmd_begin(&b, ST_SESSIONS, CC_NV_DefineSpace); b_u32(&b, RH_OWNER); auth_pw_s(&b, w.ownerAuth);
